@@ -27,6 +27,8 @@ func main() {
 		cacheMain(os.Args[2:])
 	case "cli":
 		cliMain(os.Args[2:])
+	case "gbrec":
+		gbrecMain(os.Args[2:])
 	default:
 		fmt.Fprintf(os.Stderr, "unknown driver %q\n", os.Args[1])
 		os.Exit(2)
